@@ -107,6 +107,78 @@ __CPROVER_ensures(res[G] == 0) /*@zero_value:C08,C15*/
 #endif
 #define P2(e) (((i128)1) << (e))
 #define NRM_X(inG, cinG) ((i128)(inG) + (i128)(cinG))
+// spec functions on mathematical (128-bit) integers: the balanced digit of x in base 2^k and the carry (x-digit)/2^k.
+// They determine the outputs uniquely and are what the vector-level contracts compose (vec_norm.c).
+#define NRM_DIG(x, k) ((((x) + P2((k)-1)) & (P2(k) - 1)) - P2((k)-1))
+#define NRM_CAR(x, k) (((x)-NRM_DIG(x, k)) >> (k))
+// each post is compiled only in the enforce runs whose NULL-pattern makes its antecedent true (elsewhere it is
+// vacuously true and costs solver time); in replace mode (no NRM_OUT) all are present
+#if !defined(NRM_OUT) || (NRM_OUT == 1)
+#define ENS_NORM_DIGIT_BALANCED (out != 0 ==> (-P2(base_k - 1) <= out[G] && out[G] < P2(base_k - 1)))
+#else
+#define ENS_NORM_DIGIT_BALANCED 1
+#endif
+#if !defined(NRM_OUT) || (NRM_OUT == 1 && NRM_COUT == 1 && NRM_CIN == 1)
+#define ENS_NORM_EQ_CIN_COUT ((out != 0 && carry_out != 0 && carry_in != 0) ==> NRM_X(__CPROVER_old(in[G]), __CPROVER_old(carry_in[G])) == (i128)out[G] + (((i128)carry_out[G]) << base_k))
+#else
+#define ENS_NORM_EQ_CIN_COUT 1
+#endif
+#if !defined(NRM_OUT) || (NRM_OUT == 1 && NRM_COUT == 1 && NRM_CIN == 0)
+#define ENS_NORM_EQ_COUT ((out != 0 && carry_out != 0 && carry_in == 0) ==> (i128)__CPROVER_old(in[G]) == (i128)out[G] + (((i128)carry_out[G]) << base_k))
+#else
+#define ENS_NORM_EQ_COUT 1
+#endif
+#if !defined(NRM_OUT) || (NRM_OUT == 1 && NRM_COUT == 0 && NRM_CIN == 1)
+#define ENS_NORM_DIGIT_CIN ((out != 0 && carry_out == 0 && carry_in != 0) ==> ((NRM_X(__CPROVER_old(in[G]), __CPROVER_old(carry_in[G])) - (i128)out[G]) & (P2(base_k) - 1)) == 0)
+#else
+#define ENS_NORM_DIGIT_CIN 1
+#endif
+#if !defined(NRM_OUT) || (NRM_OUT == 1 && NRM_COUT == 0 && NRM_CIN == 0)
+#define ENS_NORM_DIGIT_ONLY ((out != 0 && carry_out == 0 && carry_in == 0) ==> ((((i128)__CPROVER_old(in[G])) - (i128)out[G]) & (P2(base_k) - 1)) == 0)
+#else
+#define ENS_NORM_DIGIT_ONLY 1
+#endif
+#if !defined(NRM_OUT) || (NRM_OUT == 0 && NRM_CIN == 1)
+#define ENS_NORM_CARRY_ONLY_CIN ((out == 0 && carry_in != 0) ==> (-P2(base_k - 1) <= NRM_X(__CPROVER_old(in[G]), __CPROVER_old(carry_in[G])) - (((i128)carry_out[G]) << base_k) && NRM_X(__CPROVER_old(in[G]), __CPROVER_old(carry_in[G])) - (((i128)carry_out[G]) << base_k) < P2(base_k - 1)))
+#else
+#define ENS_NORM_CARRY_ONLY_CIN 1
+#endif
+#if !defined(NRM_OUT) || (NRM_OUT == 0 && NRM_CIN == 0)
+#define ENS_NORM_CARRY_ONLY ((out == 0 && carry_in == 0) ==> (-P2(base_k - 1) <= ((i128)__CPROVER_old(in[G])) - (((i128)carry_out[G]) << base_k) && ((i128)__CPROVER_old(in[G])) - (((i128)carry_out[G]) << base_k) < P2(base_k - 1)))
+#else
+#define ENS_NORM_CARRY_ONLY 1
+#endif
+#if !defined(NRM_OUT) || (NRM_COUT == 1)
+#define ENS_NORM_CARRY_BOUND (carry_out != 0 ==> (-P2(62) <= carry_out[G] && carry_out[G] <= P2(62)))
+#else
+#define ENS_NORM_CARRY_BOUND 1
+#endif
+#if !defined(NRM_OUT) || (NRM_OUT == 1 && NRM_CIN == 1)
+#define ENS_NORM_DIGIT_FN_CIN ((out != 0 && carry_in != 0) ==> (i128)out[G] == NRM_DIG(NRM_X(__CPROVER_old(in[G]), __CPROVER_old(carry_in[G])), base_k))
+#else
+#define ENS_NORM_DIGIT_FN_CIN 1
+#endif
+#if !defined(NRM_OUT) || (NRM_OUT == 1 && NRM_CIN == 0)
+#define ENS_NORM_DIGIT_FN ((out != 0 && carry_in == 0) ==> (i128)out[G] == NRM_DIG((i128)__CPROVER_old(in[G]), base_k))
+#else
+#define ENS_NORM_DIGIT_FN 1
+#endif
+#if !defined(NRM_OUT) || (NRM_COUT == 1 && NRM_CIN == 1)
+#define ENS_NORM_CARRY_FN_CIN ((carry_out != 0 && carry_in != 0) ==> (i128)carry_out[G] == NRM_CAR(NRM_X(__CPROVER_old(in[G]), __CPROVER_old(carry_in[G])), base_k))
+#else
+#define ENS_NORM_CARRY_FN_CIN 1
+#endif
+#if !defined(NRM_OUT) || (NRM_COUT == 1 && NRM_CIN == 0)
+#define ENS_NORM_CARRY_FN ((carry_out != 0 && carry_in == 0) ==> (i128)carry_out[G] == NRM_CAR((i128)__CPROVER_old(in[G]), base_k))
+#else
+#define ENS_NORM_CARRY_FN 1
+#endif
+#define ENS_NORM_SRC_UNCHANGED ((out != in) ==> in[G] == __CPROVER_old(in[G]))
+#if !defined(NRM_OUT) || (NRM_CIN == 1)
+#define ENS_NORM_CIN_UNCHANGED ((carry_in != 0 && carry_in != carry_out) ==> carry_in[G] == __CPROVER_old(carry_in[G]))
+#else
+#define ENS_NORM_CIN_UNCHANGED 1
+#endif
 void znx_normalize__c(uint64_t nn, uint64_t base_k, int64_t* out, int64_t* carry_out, const int64_t* in,
                       const int64_t* carry_in)
 __CPROVER_requires(nn <= MAXN && G < nn && 1 <= base_k && base_k <= 62)
@@ -121,16 +193,54 @@ __CPROVER_requires(NRM_REQ_CIN)
 __CPROVER_requires(-P2(62) <= in[G] && in[G] <= P2(62))
 __CPROVER_requires(carry_in != 0 ==> (-P2(62) <= carry_in[G] && carry_in[G] <= P2(62)))
 __CPROVER_assigns(out != 0: __CPROVER_object_upto(out, nn * 8); carry_out != 0: __CPROVER_object_upto(carry_out, nn * 8))
-__CPROVER_ensures(out != 0 ==> (-P2(base_k - 1) <= out[G] && out[G] < P2(base_k - 1))) /*@norm_digit_balanced:C05,C13*/
-__CPROVER_ensures((out != 0 && carry_out != 0 && carry_in != 0) ==> NRM_X(__CPROVER_old(in[G]), __CPROVER_old(carry_in[G])) == (i128)out[G] + (((i128)carry_out[G]) << base_k)) /*@norm_eq_cin_cout:C05,C13*/
-__CPROVER_ensures((out != 0 && carry_out != 0 && carry_in == 0) ==> (i128)__CPROVER_old(in[G]) == (i128)out[G] + (((i128)carry_out[G]) << base_k)) /*@norm_eq_cout:C05,C13*/
-__CPROVER_ensures((out != 0 && carry_out == 0 && carry_in != 0) ==> ((NRM_X(__CPROVER_old(in[G]), __CPROVER_old(carry_in[G])) - (i128)out[G]) & (P2(base_k) - 1)) == 0) /*@norm_digit_cin:C05,C13*/
-__CPROVER_ensures((out != 0 && carry_out == 0 && carry_in == 0) ==> ((((i128)__CPROVER_old(in[G])) - (i128)out[G]) & (P2(base_k) - 1)) == 0) /*@norm_digit_only:C05,C13*/
-__CPROVER_ensures((out == 0 && carry_in != 0) ==> (-P2(base_k - 1) <= NRM_X(__CPROVER_old(in[G]), __CPROVER_old(carry_in[G])) - (((i128)carry_out[G]) << base_k) && NRM_X(__CPROVER_old(in[G]), __CPROVER_old(carry_in[G])) - (((i128)carry_out[G]) << base_k) < P2(base_k - 1))) /*@norm_carry_only_cin:C05*/
-__CPROVER_ensures((out == 0 && carry_in == 0) ==> (-P2(base_k - 1) <= ((i128)__CPROVER_old(in[G])) - (((i128)carry_out[G]) << base_k) && ((i128)__CPROVER_old(in[G])) - (((i128)carry_out[G]) << base_k) < P2(base_k - 1))) /*@norm_carry_only:C05*/
-__CPROVER_ensures(carry_out != 0 ==> (-P2(62) <= carry_out[G] && carry_out[G] <= P2(62))) /*@norm_carry_bound:C05*/
-__CPROVER_ensures((out != in) ==> in[G] == __CPROVER_old(in[G])) /*@norm_src_unchanged:C18*/
-__CPROVER_ensures((carry_in != 0 && carry_in != carry_out) ==> carry_in[G] == __CPROVER_old(carry_in[G])) /*@norm_cin_unchanged:C18*/
+
+__CPROVER_ensures(ENS_NORM_DIGIT_BALANCED) /*@norm_digit_balanced:C05,C13*/
+__CPROVER_ensures(ENS_NORM_EQ_CIN_COUT) /*@norm_eq_cin_cout:C05,C13*/
+__CPROVER_ensures(ENS_NORM_EQ_COUT) /*@norm_eq_cout:C05,C13*/
+__CPROVER_ensures(ENS_NORM_DIGIT_CIN) /*@norm_digit_cin:C05,C13*/
+__CPROVER_ensures(ENS_NORM_DIGIT_ONLY) /*@norm_digit_only:C05,C13*/
+__CPROVER_ensures(ENS_NORM_CARRY_ONLY_CIN) /*@norm_carry_only_cin:C05*/
+__CPROVER_ensures(ENS_NORM_CARRY_ONLY) /*@norm_carry_only:C05*/
+__CPROVER_ensures(ENS_NORM_CARRY_BOUND) /*@norm_carry_bound:C05*/
+__CPROVER_ensures(ENS_NORM_DIGIT_FN_CIN) /*@norm_digit_fn_cin:C05,C13,C15*/
+__CPROVER_ensures(ENS_NORM_DIGIT_FN) /*@norm_digit_fn:C05,C13,C15*/
+__CPROVER_ensures(ENS_NORM_CARRY_FN_CIN) /*@norm_carry_fn_cin:C05,C13,C15*/
+__CPROVER_ensures(ENS_NORM_CARRY_FN) /*@norm_carry_fn:C05,C13,C15*/
+__CPROVER_ensures(ENS_NORM_SRC_UNCHANGED) /*@norm_src_unchanged:C18*/
+__CPROVER_ensures(ENS_NORM_CIN_UNCHANGED) /*@norm_cin_unchanged:C18*/;
+
+// Lean form used only with --replace-call-with-contract in the vector-level proofs: identical requires and assigns,
+// and a SUBSET of the ensures above (same macros; the dropped ones are the equation forms, which follow from the
+// functional form and only cost solver time at call sites).  A subset of the conjuncts of a proved contract is proved.
+void znx_normalize__c_lean(uint64_t nn, uint64_t base_k, int64_t* out, int64_t* carry_out, const int64_t* in,
+                      const int64_t* carry_in)
+__CPROVER_requires(nn <= MAXN && G < nn && 1 <= base_k && base_k <= 62)
+// NB: the assigned pointers are made fresh FIRST and the sources are "equal to it or fresh"; the other order
+// (assigned pointer possibly equal to an earlier fresh one) makes the havoc target ambiguous and CBMC runs out of memory
+__CPROVER_requires(NRM_REQ_OUT)
+__CPROVER_requires((out != 0 && in == out) || __CPROVER_is_fresh(in, nn * 8))
+__CPROVER_requires(NRM_REQ_COUT)
+__CPROVER_requires(out != 0 || carry_out != 0)
+__CPROVER_requires(NRM_REQ_K)
+__CPROVER_requires(NRM_REQ_CIN)
+__CPROVER_requires(-P2(62) <= in[G] && in[G] <= P2(62))
+__CPROVER_requires(carry_in != 0 ==> (-P2(62) <= carry_in[G] && carry_in[G] <= P2(62)))
+__CPROVER_assigns(out != 0: __CPROVER_object_upto(out, nn * 8); carry_out != 0: __CPROVER_object_upto(carry_out, nn * 8))
+
+#ifndef LEAN_B
+__CPROVER_ensures(ENS_NORM_DIGIT_BALANCED)
+#endif
+#ifndef LEAN_B
+__CPROVER_ensures(ENS_NORM_CARRY_BOUND)
+#endif
+__CPROVER_ensures(ENS_NORM_DIGIT_FN_CIN)
+__CPROVER_ensures(ENS_NORM_DIGIT_FN)
+__CPROVER_ensures(ENS_NORM_CARRY_FN_CIN)
+__CPROVER_ensures(ENS_NORM_CARRY_FN)
+#ifndef LEAN_A
+__CPROVER_ensures(ENS_NORM_SRC_UNCHANGED)
+__CPROVER_ensures(ENS_NORM_CIN_UNCHANGED)
+#endif
 ;
 
 #endif
